@@ -115,11 +115,43 @@ fn entry_json(e: &ResultEntry) -> Value {
     json!({"entry": tree_json(&e.0), "ctrls": e.1.iter().map(ctrl_json).collect::<Vec<_>>()})
 }
 
+/// Test adapter: passes `left` items through, then fails (the stream enters the Error state while the
+/// search is still open at the server) - the situation a policy adapter creates when it rejects an item.
+#[derive(Clone, Debug)]
+struct FailAfter { left: usize }
+
+impl ldap3::adapters::SoloMarker for FailAfter {}
+
+#[async_trait::async_trait]
+impl<'a, S, A> Adapter<'a, S, A> for FailAfter
+where
+    S: AsRef<str> + Send + Sync + 'a,
+    A: AsRef<[S]> + Send + Sync + 'a,
+{
+    async fn start(&mut self, stream: &mut SearchStream<'a, S, A>, base: &str, scope: Scope, filter: &str, attrs: A) -> ldap3::result::Result<()> {
+        stream.start(base, scope, filter, attrs).await
+    }
+
+    async fn next(&mut self, stream: &mut SearchStream<'a, S, A>) -> ldap3::result::Result<Option<ResultEntry>> {
+        let r = stream.next().await?;
+        if r.is_some() {
+            if self.left == 0 { return Err(LdapError::AdapterInit(String::from("item rejected by the adapter"))); }
+            self.left -= 1;
+        }
+        Ok(r)
+    }
+
+    async fn finish(&mut self, stream: &mut SearchStream<'a, S, A>) -> LdapResult {
+        stream.finish().await
+    }
+}
+
 fn adapters_of<'a>(v: &Value) -> Vec<Box<dyn Adapter<'a, String, Vec<String>> + 'a>> {
     let mut out: Vec<Box<dyn Adapter<'a, String, Vec<String>> + 'a>> = vec![];
     for a in v.as_array().cloned().unwrap_or_default() {
         if a.as_str() == Some("EntriesOnly") { out.push(Box::new(EntriesOnly::new())); }
         else if let Some(n) = a["Paged"].as_i64() { out.push(Box::new(PagedResults::new(n as i32))); }
+        else if let Some(n) = a["FailAfter"].as_u64() { out.push(Box::new(FailAfter { left: n as usize })); }
     }
     out
 }
